@@ -36,8 +36,12 @@ impl TypeSpace {
             // This isn't strictly necessary, but we'll short-circuit some work
             // by checking this right away.
             if visited.contains(&type_id) {
+                #[cfg(feature = "verif-hooks")]
+                crate::verif::cycle_event("bc_root", id, true, &[], &[]);
                 continue;
             }
+            #[cfg(feature = "verif-hooks")]
+            crate::verif::cycle_event("bc_root", id, false, &[], &[]);
 
             let mut active = BTreeSet::<TypeId>::new();
             let mut stack = Vec::<Node>::new();
@@ -50,6 +54,8 @@ impl TypeSpace {
                     // Skip right to the end since we've already seen this type.
                     Node::Start { type_id } if visited.contains(type_id) => {
                         assert!(active.contains(type_id));
+                        #[cfg(feature = "verif-hooks")]
+                        crate::verif::cycle_event("bc_seen", type_id.0, false, &[], &[]);
 
                         let type_id = type_id.clone();
                         *top = Node::Processing {
@@ -83,6 +89,8 @@ impl TypeSpace {
                             // a cycle (otherwise we'll descend).
                             child_ids.partition::<Vec<_>, _>(|child_id| active.contains(child_id))
                         };
+                        #[cfg(feature = "verif-hooks")]
+                        crate::verif::cycle_event("bc_visit", type_id.0, false, &snip, &descend);
 
                         // Note that while `snip` might contain duplicates,
                         // `id_to_box` is idempotent insofar as the same input
@@ -124,11 +132,15 @@ impl TypeSpace {
                     } => {
                         if let Some(type_id) = children_ids.pop() {
                             // Descend into the next child node.
+                            #[cfg(feature = "verif-hooks")]
+                            crate::verif::cycle_event("bc_push", type_id.0, false, &[], &[]);
                             active.insert(type_id.clone());
                             stack.push(Node::Start { type_id });
                         } else {
                             // All done; remove the item from the active list
                             // and stack.
+                            #[cfg(feature = "verif-hooks")]
+                            crate::verif::cycle_event("bc_pop", type_id.0, false, &[], &[]);
                             active.remove(type_id);
                             let _ = stack.pop();
                         }
